@@ -501,6 +501,11 @@ MEMSAFE = re.compile(r"dereference failure|pointer|out of bounds|invalid|misalig
 
 
 def handle_failure(prop, h, r, target_dir, extra, env, mem_kb, timeout_s, violations, inconclusive, cfg):
+    if violations and not os.environ.get("PV_REPLAY_ALL"):
+        # one reproduced counterexample decides the run; further failing harnesses are listed, not replayed
+        r["not_replayed"] = "a violation of this property is already reported by this run"
+        log("  -> %s FAILED: %s (not replayed: a violation is already reported)" % (h["name"], "; ".join(r["failed_checks"][:2])))
+        return
     log("  -> %s FAILED: %s; extracting a counterexample" % (h["name"], "; ".join(r["failed_checks"][:3])))
     tests = playback_values(h, target_dir, extra, env, mem_kb, timeout_s)
     r["counterexamples"] = [dict(check=c, values=v) for c, v in tests[:3]]
